@@ -352,6 +352,18 @@ static void fatal_handler(const char *msg)
   _exit(0);
 }
 #endif
+struct ckstate { const char *data; size_t len, pos; size_t sizes[64]; int nsizes, cur; };
+static ssize_t ck_read(void *cookie, char *buf, size_t size)
+{
+  struct ckstate *ck = (struct ckstate *)cookie;
+  size_t want = ck->sizes[ck->cur % ck->nsizes]; ck->cur++;
+  if(want == 0) want = 1;
+  if(want > size) want = size;
+  if(want > ck->len - ck->pos) want = ck->len - ck->pos;
+  memcpy(buf, ck->data + ck->pos, want);
+  ck->pos += want;
+  return (ssize_t)want;
+}
 static locale_t thread_loc; static char *thread_name, *glob_name;
 static long long wdev_cap = -1; static int wdev_fsync_fails, wdev_close_fails, wdev_open_fails, wdev_active;
 static FILE *wdev_stream;
@@ -826,6 +838,29 @@ static int run_line(char *line)
     cap_report();
     if(count_fds() != fds || count_open_tracked() != 0) ev_add("L FDLEAK");
     if(!(pos >= 0 && cr == 0)) ev_add("L STREAMBAD");
+    r_int(r);
+    return 0;
+  }
+  if(n == 3 && IS("readck"))
+  {
+    /* config_read from a cookie stream that hands out the bytes in the given chunk sizes (cyclically) */
+    size_t len;
+    char *txt = parse_hs(tok[2], &len);
+    struct ckstate ck; memset(&ck, 0, sizeof ck);
+    ck.data = txt; ck.len = len;
+    for(char *q = tok[1]; *q && ck.nsizes < 64; ) { ck.sizes[ck.nsizes++] = (size_t)strtoul(q, &q, 10); if(*q == ',') q++; }
+    if(ck.nsizes == 0) { ck.sizes[0] = 1; ck.nsizes = 1; }
+    cookie_io_functions_t io = { ck_read, NULL, NULL, NULL };
+    int fds = count_fds();
+    FILE *f = fopencookie(&ck, "r", io);
+    rec_io = 1;
+    int r = config_read(&cfg, f);
+    rec_io = 0;
+    int cr = fclose(f);
+    free(txt);
+    cap_report();
+    if(count_fds() != fds || count_open_tracked() != 0) ev_add("L FDLEAK");
+    if(cr != 0) ev_add("L STREAMBAD");
     r_int(r);
     return 0;
   }
